@@ -15,6 +15,7 @@ import z3
 from .values import *  # noqa
 from .values import _Int, _Bool, _Real, _Str
 from . import extnum as X
+from . import segstr as SG
 import math
 
 _handlers = {}
@@ -202,6 +203,15 @@ def equal(eng, st, a, b):
         if isinstance(o, SRef) and getattr(o.t, "null", None) is not None:
             return SBool(o.z == o.t.null)
         return a is None and b is None
+    if isinstance(a, SG.SegStr) or isinstance(b, SG.SegStr):
+        sa, sb = (a, b) if isinstance(a, SG.SegStr) else (b, a)
+        if isinstance(sb, str):
+            return SG.equals_literal(sa, sb)
+        if isinstance(sb, SG.SegStr) and sb.concrete() is not None:
+            return SG.equals_literal(sa, sb.concrete())
+        if sb is None or not isinstance(sb, (SG.SegStr, SStr)):
+            return False
+        raise Unsupported("equality of two symbolic texts")
     if X.is_extlike(a) or X.is_extlike(b):
         if not isinstance(a, SV) and not isinstance(b, SV):
             return a == b
@@ -345,6 +355,11 @@ def compare(eng, st, op, a, b, node):
 
 def contains(eng, st, cont, x, node=None):
     c = eng.deref(st, cont)
+    if isinstance(c, SG.SegStr):
+        if not isinstance(x, str):
+            raise Unsupported("`in` on a symbolic text with a non-literal needle")
+        yield st, SG.contains_literal(c, x)
+        return
     if isinstance(c, SUnion):
         for s, cc in eng.force(st, c):
             yield from contains(eng, s, cc, x, node)
@@ -498,6 +513,9 @@ def binop(eng, st, op, a, b, node):
             return
         if isinstance(a, str) and isinstance(b, str):
             yield st, a + b
+            return
+        if isinstance(a, SG.SegStr) or isinstance(b, SG.SegStr):
+            yield st, SG.concat([a, b])
             return
         if isinstance(a, (str, SStr)) and isinstance(b, (str, SStr)):
             yield st, Str.fresh("concat")
@@ -958,6 +976,16 @@ def construct(eng, st, cls, args, kwargs, node):
 # ----------------------------------------------------------------------------- containers
 def container_call(eng, st, target, name, args, kwargs, node=None):
     c = eng.deref(st, target)
+    if isinstance(c, SG.SegStr):
+        if name == "split" and len(args) == 1 and isinstance(args[0], str):
+            yield st, st.alloc(CList(SG.split(c, args[0])), "list")
+        elif name == "strip" and not args:
+            yield st, SG.strip(c)
+        elif name == "startswith" and len(args) == 1 and isinstance(args[0], str):
+            yield st, SG.startswith(c, args[0])
+        else:
+            raise Unsupported(f"method {name} on a symbolic text")
+        return
     isloc = isinstance(target, Loc)
     where = eng.where(st, node) if node is not None else ""
 
@@ -1271,6 +1299,17 @@ def container_call(eng, st, target, name, args, kwargs, node=None):
         if name == "__len__":
             yield st, len(c)
             return
+        if isinstance(c, str) and name == "join" and getattr(eng, "exact_strings", False):
+            for s1, items in iterate(eng, st, args[0]):
+                if not isinstance(items, list):
+                    raise Unsupported("join over a symbolic-length sequence")
+                parts = []
+                for k_, it in enumerate(items):
+                    if k_:
+                        parts.append(c)
+                    parts.append(it)
+                yield s1, SG.concat(parts) if parts else ""
+            return
         if isinstance(c, str) and name in ("join", "format"):
             yield st, Str.fresh(name)       # text assembled from symbolic pieces: an arbitrary string
             return
@@ -1354,7 +1393,7 @@ def isinstance_value(eng, st, v, clss):
             terms.append(v.k >= X.K_NINF)
         r = z3.simplify(z3.Or(terms)) if terms else z3.BoolVal(False)
         return True if z3.is_true(r) else (False if z3.is_false(r) else SBool(r))
-    if isinstance(v, (SStr,)):
+    if isinstance(v, (SStr, SG.SegStr)):
         return sub(str)
     if isinstance(v, SEnum):
         return sub(v.t.pyenum)
@@ -1463,6 +1502,16 @@ def _int(eng, st, args, kw, node):
         return
     (v,) = args
     for s, v in eng.force(st, v):
+        if isinstance(v, SG.SegStr):
+            kind, r = SG.to_int(v)
+            yield s, (r if kind == "ok" else ExcVal(r, (), eng.where(s, node)))
+            continue
+        if isinstance(v, str):
+            try:
+                yield s, int(v)
+            except ValueError:
+                yield s, ExcVal(ValueError, (), eng.where(s, node))
+            continue
         if isinstance(v, (int, Fraction, str)) and not isinstance(v, SV):
             yield s, int(v)
         elif isinstance(v, SInt):
@@ -1536,6 +1585,29 @@ def _bool(eng, st, args, kw, node):
 
 @builtin(str, repr)
 def _str(eng, st, args, kw, node):
+    if args and getattr(eng, "exact_strings", False) and isinstance(args[0], (SInt, SReal, SG.SegStr, SRef, SUnion)):
+        for s, v in eng.force(st, args[0]):
+            if isinstance(v, SG.SegStr):
+                yield s, v
+            elif isinstance(v, (SInt, SReal)):
+                yield s, SG.atom_of(v)
+            elif isinstance(v, SRef) and v.t.pycls is not None:
+                meth = None
+                for nm in ("__str__", "__repr__"):
+                    a = inspect.getattr_static(v.t.pycls, nm, None)
+                    if isinstance(a, types.FunctionType):
+                        meth = a
+                        break
+                if meth is None:
+                    yield s, Str.fresh("str")
+                else:
+                    from .engine import BoundMethod
+                    yield from eng.call(s, BoundMethod(v, meth), [], {}, node)
+            elif isinstance(v, (str, int, Fraction)) and not isinstance(v, SV):
+                yield s, str(v)
+            else:
+                yield s, Str.fresh("str")
+        return
     if args and isinstance(args[0], (str, int, Fraction, enum.Enum)) and not isinstance(args[0], SV):
         yield st, str(args[0])
     else:
@@ -1557,6 +1629,9 @@ def _fraction(eng, st, args, kw, node):
                 ax = z3.If(x >= 0, x, -x)
                 s.assume(r - x <= eps * ax, x - r <= eps * ax)
                 yield s, SReal(r)
+            elif isinstance(v, SG.SegStr):
+                kind, r = SG.to_fraction(v)
+                yield s, (r if kind == "ok" else ExcVal(r, (), eng.where(s, node)))
             elif isinstance(v, X.SExt):
                 for s1, fin in eng.branch(s, v.finite(), "Fraction(ext)"):
                     if fin:
